@@ -841,6 +841,14 @@ func (tr *trans) frameObligations(st State, k int, pos token.Pos) {
 		}
 	}
 	fp := tr.footprint(env, tr.fc.Modifies)
+	var onlyThese map[string]bool
+	if tr.fc.ModAll {
+		if len(tr.fc.ModExcept) == 0 {
+			return
+		}
+		// modifies * except X: only X is claimed to stay as it was
+		onlyThese = tr.footprint(env, tr.fc.ModExcept).whole
+	}
 	next0 := tr.getState(tr.entry, "$next")
 	for _, name := range sortedKeys(tr.known) {
 		if name == "$next" || strings.HasPrefix(name, "call.") || strings.HasPrefix(name, "iter.") || strings.HasPrefix(name, "lock.") || strings.HasPrefix(name, "recv.") || strings.HasPrefix(name, "sent.") || strings.HasPrefix(name, "L.") || strings.HasPrefix(name, "defer.") {
@@ -850,6 +858,9 @@ func (tr *trans) frameObligations(st State, k int, pos token.Pos) {
 			continue
 		}
 		if tr.sharedHeaps[name] {
+			continue
+		}
+		if onlyThese != nil && !onlyThese[name] {
 			continue
 		}
 		cur := tr.getState(st, name)
